@@ -13,6 +13,10 @@ ASSUMPTIONS = ["Python ints modelled as mathematical integers (exact)"]
 
 
 def jobs(tier):
+    return [dict(j, second_solver=(40 if tier == "thorough" else 0)) for j in _jobs(tier)]
+
+
+def _jobs(tier):
     nmax = 6 if tier == "quick" else 10
     js = [dict(name="limits", fn="limits", args=[], collect_models=1),
           dict(name="roundtrip", fn="roundtrip", args=[], collect_models=4, expect=["decode(encode(n)) == n", "no 0x00/0xFF byte"]),
